@@ -30,6 +30,9 @@ pub enum Dev {
     /// dedicated constraint over committed values; verifier's coefficient j (or
     /// the constant if None) is off by d
     CommittedCoef(Option<usize>, S),
+    /// the same, but the dedicated constraint is the FIRST call on both roles and names the
+    /// commitments through hand-built handles before they exist (forward references)
+    CommittedCoefForward(Option<usize>, S),
     /// dedicated constraint with EQUAL coefficients on all commitments; the
     /// verifier's coefficient j >= 1 is off by k * 2^64 (same low 64 bits)
     CommittedCoefLow64(usize, u8),
@@ -63,6 +66,8 @@ impl Dev {
             Dev::Constant(..) => "F7-constant-changed",
             Dev::CommittedCoef(Some(_), _) => "F7-committed-coefficient-changed",
             Dev::CommittedCoef(None, _) => "F7-committed-constant-changed",
+            Dev::CommittedCoefForward(Some(_), _) => "F7-committed-coefficient-changed(constraint precedes the commitments)",
+            Dev::CommittedCoefForward(None, _) => "F7-committed-constant-changed(constraint precedes the commitments)",
             Dev::CommittedCoefLow64(..) => "F7-committed-coefficient-plus-multiple-of-2^64",
             Dev::TLabel(_) => "F7-transcript-label",
             Dev::PreDrop(_) => "F7-precontext-dropped",
@@ -280,7 +285,8 @@ fn apply_dev<G: AffineRepr>(
             }
             Some((base.clone(), v2, id, true))
         }
-        Dev::CommittedCoef(which, d) => {
+        Dev::CommittedCoef(which, d) | Dev::CommittedCoefForward(which, d) => {
+            let forward = matches!(dev, Dev::CommittedCoefForward(..));
             if m == 0 {
                 return None;
             }
@@ -317,7 +323,7 @@ fn apply_dev<G: AffineRepr>(
                             c += d;
                         }
                     }
-                    terms.push((TermVar::V(*t), Coef::Lit(S::of(&c))));
+                    terms.push((if forward { TermVar::Raw(VK::C(j)) } else { TermVar::V(*t) }, Coef::Lit(S::of(&c))));
                 }
                 let mut kk = k;
                 if let Some((None, d)) = bump {
@@ -335,9 +341,14 @@ fn apply_dev<G: AffineRepr>(
                 }
             }
             let mut p2 = base.clone();
-            p2.ops.push(mk(None));
             let mut v2 = base.clone();
-            v2.ops.push(mk(Some((*which, d))));
+            if forward {
+                p2.ops.insert(0, mk(None));
+                v2.ops.insert(0, mk(Some((*which, d))));
+            } else {
+                p2.ops.push(mk(None));
+                v2.ops.push(mk(Some((*which, d))));
+            }
             Some((p2, v2, id, true))
         }
         Dev::CommittedCoefLow64(j, k) => {
@@ -627,6 +638,7 @@ pub fn gen_dev(rng: &mut Rng, base: &SessionCase, kn: &gen::Knobs) -> Dev {
             }
             7 if !cons.is_empty() => Dev::Constant(*pick(rng, &cons), d()),
             8 if m > 1 && chance(rng, 1, 2) => Dev::CommittedCoefLow64(1 + below(rng, m - 1), (rng.next_u32() % 3) as u8),
+            8 | 9 if m > 0 && chance(rng, 1, 3) => Dev::CommittedCoefForward(if chance(rng, 1, 2) { Some(below(rng, m)) } else { None }, gen_scalar_nonzero::<ark_secq256k1::Fr>(rng)),
             8 | 9 if m > 0 => Dev::CommittedCoef(if chance(rng, 1, 2) { Some(below(rng, m)) } else { None }, gen_scalar_nonzero::<ark_secq256k1::Fr>(rng)),
             10 => Dev::TLabel((st.tlabel + 1 + below(rng, TLABELS.len() - 1)) % TLABELS.len()),
             11 if !st.pre.is_empty() => Dev::PreDrop(below(rng, st.pre.len())),
